@@ -38,17 +38,17 @@ class RunResult:
 def pipe_run(shard, producer_cmd, stdin_data=None, env=None, timeout=3000):
     """producer | driver ; returns (driver output lines, producer rc, producer stderr)."""
     errf = tempfile.TemporaryFile()
+    inf = None
     if stdin_data is not None:
-        prod = subprocess.Popen(producer_cmd, stdin=subprocess.PIPE, stdout=subprocess.PIPE, stderr=errf, env=env)
+        # stdin comes from a temporary file: writing it through a pipe before reading the driver's output
+        # deadlocks once the volume exceeds the pipe buffers
+        inf = tempfile.TemporaryFile()
+        inf.write(stdin_data.encode()); inf.flush(); inf.seek(0)
+        prod = subprocess.Popen(producer_cmd, stdin=inf, stdout=subprocess.PIPE, stderr=errf, env=env)
     else:
         prod = subprocess.Popen(producer_cmd, stdout=subprocess.PIPE, stderr=errf, env=env)
     drv = subprocess.Popen([DRIVER], stdin=prod.stdout, stdout=subprocess.PIPE, text=True)
     prod.stdout.close()
-    if stdin_data is not None:
-        try:
-            prod.stdin.write(stdin_data.encode()); prod.stdin.close()
-        except BrokenPipeError:
-            pass
     try:
         out, _ = drv.communicate(timeout=timeout)
     except subprocess.TimeoutExpired:
@@ -59,6 +59,8 @@ def pipe_run(shard, producer_cmd, stdin_data=None, env=None, timeout=3000):
     errf.seek(0)
     err = errf.read().decode(errors="replace")[-4000:]
     errf.close()
+    if inf is not None:
+        inf.close()
     return out.splitlines(), prc, err
 
 
